@@ -119,8 +119,9 @@ def make(prop, judge, *, quick, thorough, rule, assumptions, nontrivial=None, fl
     return {"PROPERTY": prop, "monitor": monitor, "plan": plan, "run_shard": run_shard, "coverage": coverage, "vacuity": vacuity, "replay": replay}
 
 
-ML_OPS = ["b_add", "b_mul", "b_cat", "b_cat1", "tk_201", "tk_m1_0", "tk2_ax1", "sl_1_4", "sl2_a", "mb_demean_chunks", "sum0", "rc2", "T"]
-ML4_OPS = ["b_add", "b_cat1", "tk_201", "tk_m1_0", "mb_demean_chunks", "sl_1_4"]
+ML_OPS = ["b_add", "b_mul", "b_cat", "b_cat1", "tk_201", "tk_2302", "tk_m1_0", "tk2_ax1", "sl_1_4", "sl2_a", "mb_demean_chunks", "sum0", "rc2", "T"]
+ML4Q_OPS = ["b_add", "tk_201", "tk_2302", "mb_demean_chunks"]
+ML4_OPS = ["b_add", "b_cat1", "tk_201", "tk_2302", "tk_m1_0", "mb_demean_chunks", "sl_1_4"]
 
 
 def ml_sources(tier):
@@ -142,6 +143,12 @@ def ml_shards(tier):
         ops4 = OPS.subset(names=ML4_OPS)
         shards += E.plan_shards(S[:2], ops4, 4)
         bounds["multi_leaf_depth4"] = {"ops": len(ops4), "sources": 2}
+    else:
+        # nested elemwise of three differently chunked leaves under a take and a
+        # grid-sensitive consumer needs depth 4; compact alphabet in quick
+        ops4 = OPS.subset(names=ML4Q_OPS)
+        shards += E.plan_shards(S[:1], ops4, 4)
+        bounds["multi_leaf_depth4"] = {"ops": len(ops4), "sources": 1}
     return shards, bounds
 
 
